@@ -121,6 +121,8 @@ class SimOS:
             if not held:
                 del self.locks[f.inode]
         self.k.log('close', pid, fd)
+        # close(2) may report a deferred I/O error; the descriptor is closed nevertheless
+        self._fault('close', pid, fd=fd)
 
     def lockf(self, pid, fd, op):
         if self.k.inert():
